@@ -123,10 +123,16 @@ class Rig:
         return self.host_dir is not None and filename.startswith(self.host_dir)
 
     def _wrapper(self):
+        """The tracer handed to sys.settrace: records, lets the agent see the event, records again.
+
+        CPython semantics are kept: the function given to settrace sees 'call' events; whatever it returns becomes the
+        frame's local trace function and sees that frame's later events; a non-None return of the local function
+        replaces it, None keeps it.
+        """
         rig = self
         handler_call = self.handler.trace_call
 
-        def W(frame, event, arg):
+        def invoke(fn, frame, event, arg):
             host = rig.is_host(frame.f_code.co_filename)
             with rig._lock:
                 rig._seq += 1
@@ -143,11 +149,11 @@ class Rig:
                 if rig.freeze:
                     clock.freeze()
                 try:
-                    r = handler_call(frame, event, arg)
+                    r = fn(frame, event, arg)
                 except BaseException as e:  # an escape: CPython would raise this in the host and drop the tracer
                     ev.escaped = e
                     rig.escapes.append((ev, type(e).__name__, traceback.format_exc()[-1800:]))
-                    r = True
+                    r = fn
                 finally:
                     if rig.freeze:
                         clock.unfreeze()
@@ -156,7 +162,19 @@ class Rig:
                     rig.post(ev, frame, arg)
             finally:
                 rig._cur.ev = prev
-            return W if r is not None else None
+            return r
+
+        def local(fn):
+            def L(frame, event, arg):
+                r = invoke(fn, frame, event, arg)
+                if r is not None and r is not fn and r != fn:
+                    return local(r)
+                return L
+            return L
+
+        def W(frame, event, arg):
+            r = invoke(handler_call, frame, event, arg)
+            return local(r) if r is not None else None
 
         return W
 
